@@ -48,14 +48,14 @@ theorem firstDup_none_iff (seen l : List String) :
         · exact hs y (List.mem_cons_of_mem _ hy) h
 
 theorem dupOutput_none_iff (entries : List String) :
-    dupOutput entries = none ↔ (entries.flatMap entryOuts).Nodup := by
+    dupOutput entries = none ↔ (entries.flatMap entryCanonOuts).Nodup := by
   unfold dupOutput
   rw [firstDup_none_iff]
   simp
 
 /-- a successful checked run is a successful run with the same result, and its outputs have no repetition -/
 theorem checked_done {ev h st b a r} (hg : generateChecked ev h st b a = .ok (.done r)) :
-    generate ev h st b a = .ok (.done r) ∧ (r.entries.flatMap entryOuts).Nodup := by
+    generate ev h st b a = .ok (.done r) ∧ (r.entries.flatMap entryCanonOuts).Nodup := by
   unfold generateChecked at hg
   split at hg
   · cases hg
@@ -83,14 +83,14 @@ theorem checked_failed {ev h st b a errs} :
 /-- the run is rejected by the check exactly when `generate` succeeds and some output is named twice -/
 theorem rejected_iff_dup {ev h st b a r} (hg : generate ev h st b a = .ok (.done r)) :
     generateChecked ev h st b a = .error (.error "generate.rs:output produced by more than one build statement") ↔
-      ¬ (r.entries.flatMap entryOuts).Nodup := by
+      ¬ (r.entries.flatMap entryCanonOuts).Nodup := by
   unfold generateChecked
   rw [hg]
   simp only
   cases hd : dupOutput r.entries with
   | none => simp [(dupOutput_none_iff _).1 hd]
   | some o =>
-    have : ¬ (r.entries.flatMap entryOuts).Nodup := by
+    have : ¬ (r.entries.flatMap entryCanonOuts).Nodup := by
       intro hn
       rw [(dupOutput_none_iff _).2 hn] at hd
       cases hd
@@ -111,16 +111,30 @@ theorem nodup_flatMap_unique {α β} [DecidableEq β] {l : List α} {f : α → 
     · exact ih hl' hxs ha' hb'
 
 /-- **C06 (one producer per output)**: in a run that laze accepts, two statements of the generated file that name the same output
-    path are one and the same statement (and the statements of the file are pairwise different: `generate_entries_nodup`) -/
+    path — the same after ninja's canonicalisation (`./`, `dir/..`, `//`) — are one and the same statement (and the statements of the
+    file are pairwise different: `generate_entries_nodup`) -/
+theorem one_producer_per_canonical_output {ev h st b a r} (hg : generateChecked ev h st b a = .ok (.done r))
+    {e₁ e₂ : String} (h₁ : e₁ ∈ r.entries) (h₂ : e₂ ∈ r.entries) {o₁ o₂ : String}
+    (ho₁ : o₁ ∈ entryOuts e₁) (ho₂ : o₂ ∈ entryOuts e₂) (hc : canonPath o₁ = canonPath o₂) : e₁ = e₂ := by
+  obtain ⟨hgen, hn⟩ := checked_done hg
+  refine nodup_flatMap_unique (generate_entries_nodup hgen) hn h₁ h₂ (y := canonPath o₁) ?_ ?_
+  · exact List.mem_map.2 ⟨o₁, ho₁, rfl⟩
+  · exact List.mem_map.2 ⟨o₂, ho₂, hc.symm⟩
+
 theorem one_producer_per_output {ev h st b a r} (hg : generateChecked ev h st b a = .ok (.done r))
     {e₁ e₂ : String} (h₁ : e₁ ∈ r.entries) (h₂ : e₂ ∈ r.entries) {o : String}
-    (ho₁ : o ∈ entryOuts e₁) (ho₂ : o ∈ entryOuts e₂) : e₁ = e₂ := by
-  obtain ⟨hgen, hn⟩ := checked_done hg
-  exact nodup_flatMap_unique (generate_entries_nodup hgen) hn h₁ h₂ ho₁ ho₂
+    (ho₁ : o ∈ entryOuts e₁) (ho₂ : o ∈ entryOuts e₂) : e₁ = e₂ :=
+  one_producer_per_canonical_output hg h₁ h₂ ho₁ ho₂ rfl
 
-/-- … and no statement names one output twice -/
-theorem statement_outputs_nodup {ev h st b a r} (hg : generateChecked ev h st b a = .ok (.done r))
-    {e : String} (he : e ∈ r.entries) : (entryOuts e).Nodup := by
+theorem nodup_of_map {α β} (f : α → β) : ∀ {l : List α}, (l.map f).Nodup → l.Nodup
+  | [], _ => List.nodup_nil
+  | x :: xs, h => by
+    rw [List.map_cons, List.nodup_cons] at h
+    exact List.nodup_cons.2 ⟨fun hx => h.1 (List.mem_map.2 ⟨x, hx, rfl⟩), nodup_of_map f h.2⟩
+
+/-- … and no statement names one output twice (not even in two spellings) -/
+theorem statement_canonical_outputs_nodup {ev h st b a r} (hg : generateChecked ev h st b a = .ok (.done r))
+    {e : String} (he : e ∈ r.entries) : (entryCanonOuts e).Nodup := by
   obtain ⟨_, hn⟩ := checked_done hg
   generalize r.entries = l at he hn
   induction l with
@@ -130,6 +144,16 @@ theorem statement_outputs_nodup {ev h st b a r} (hg : generateChecked ev h st b 
     rcases List.mem_cons.1 he with rfl | he'
     · exact hn.1
     · exact ih he' hn.2.1
+
+theorem statement_outputs_nodup {ev h st b a r} (hg : generateChecked ev h st b a = .ok (.done r))
+    {e : String} (he : e ∈ r.entries) : (entryOuts e).Nodup :=
+  nodup_of_map canonPath (statement_canonical_outputs_nodup hg he)
+
+/-- what the canonical form does to the spellings that occur: a `./` component and a `dir/..` pair disappear -/
+example : canonPath "build/objects/./x.1.o" = canonPath "build/objects/x.1.o" := by decide +kernel
+example : canonPath "build/objects/sub/../x.1.o" = "build/objects/x.1.o" := by decide +kernel
+example : canonPath "/abs//x/./y" = "/abs/x/y" := by decide +kernel
+example : canonPath "../../x" = "../../x" := by decide +kernel
 
 /-- every theorem about `generate` holds of an accepted checked run (it is the same result) -/
 theorem checked_entries_nodup {ev h st b a r} (hg : generateChecked ev h st b a = .ok (.done r)) : r.entries.Nodup :=
